@@ -28,6 +28,13 @@ func (p *PgSQLDataEncoderProcessor) ID() string {
 // OnColumn encode binary value to text and back. Should be before and after tokenizer processor
 func (p *PgSQLDataEncoderProcessor) OnColumn(ctx context.Context, data []byte) (context.Context, []byte, error) {
 	if len(data) == 0 {
+		// a column without a declared data type: the decoder may have decoded the bytea text form of an
+		// empty value ("\x"), give back what the database sent
+		if setting, ok := encryptor.EncryptionSettingFromContext(ctx); !ok || setting == nil || setting.GetDBDataTypeID() == 0 {
+			if encodedValue, ok := base.GetEncodedValueFromContext(ctx); ok {
+				return ctx, encodedValue, nil
+			}
+		}
 		return ctx, data, nil
 	}
 
